@@ -94,6 +94,9 @@ with SqliteImpl.impl_store.impl_manager as impl:
     @impl(ops.round)
     def _round(x, decimals):
         if decimals >= 0:
+            if isinstance(x.type, sqa.Integer):
+                # SQLite's ROUND always returns a floating point number
+                return x
             return sqa.func.ROUND(x, decimals, type_=x.type)
         # For some reason SQLite doesn't like negative decimals values
         return sqa.func.ROUND(x / (10**-decimals), type_=x.type) * (10**-decimals)
